@@ -100,6 +100,14 @@ def generate(R, tier):
     if ga and kind == "subset" and k == n and R.random() < 0.7:
         k = R.randint(1, n - 1)
     ebv = [[round(R.gauss(0, 1), 3) if R.random() < 0.3 else R.gauss(0, 1) for _ in range(2)] for _ in range(n)]
+    # objective data on other scales: a large common level with a small spread, very small and very large magnitudes
+    estyle = R.choice(["plain", "plain", "plain", "level", "tiny", "huge"])
+    if estyle == "level":
+        ebv = [[2500.0 + 0.004 * v for v in row] for row in ebv]
+    elif estyle == "tiny":
+        ebv = [[1e-9 * v for v in row] for row in ebv]
+    elif estyle == "huge":
+        ebv = [[1e7 * v for v in row] for row in ebv]
     mode = R.choice(["global", "Generator", "RandomState"]) if has_rng else "global"
     # candidate set of a subset problem: every individual in index order, or an unsorted / partial set of them
     space, rebound = None, None
@@ -121,7 +129,7 @@ def generate(R, tier):
     if kind == "subset" and name != "sorting" and R.random() < 0.3:
         # non-separable objective: relationship (Cholesky-like upper triangular factor) enters through a norm
         ocs = [[round(abs(R.gauss(0.5, 0.4)) + (1.0 if i == j else 0.0), 3) if j >= i else 0.0 for j in range(n)] for i in range(n)]
-    return {"algo": name, "n": n, "k": k, "space": space, "rebound": rebound, "ocs": ocs, "ebv": ebv, "obj_wt": R.choice([None, None, 1.0, -1.0, 2.5, -0.5]), "caps": ({"grp": [R.randint(0, 1) for _ in range(n)], "cap": [R.randint(0, 2), R.randint(0, 2)], "flag": [R.randint(0, 1) for _ in range(n)],
+    return {"algo": name, "n": n, "k": k, "space": space, "rebound": rebound, "ocs": ocs, "ebv": ebv, "estyle": estyle, "obj_wt": R.choice([None, None, 1.0, -1.0, 2.5, -0.5]), "caps": ({"grp": [R.randint(0, 1) for _ in range(n)], "cap": [R.randint(0, 2), R.randint(0, 2)], "flag": [R.randint(0, 1) for _ in range(n)],
                       "quota": (R.randint(0, k) if R.random() < 0.5 else None)}
                      if (kind == "subset" and R.random() < (0.6 if name in ("hc", "sorting_hc") else 0.2)) else None),
             "con": R.random() < 0.35, "eq": (name in ("hc", "sorting_hc", "ga.subset", "ga.real") and R.random() < 0.35), "ngen": R.randint(1, 4), "pop": R.choice([4, 6, 8, 12]),
@@ -472,6 +480,6 @@ def _out(sc, V, log, faults, probes, ran, g):
         return {"violations": V, "log": log, "trace": trace, "nontrivial": ran, "faults": faults, "probes": probes, "sim": {"optimiser_runs": 1}}
     trace = "%s|con=%s%s%s|w%s|%s|%s|n%s|k%s" % (sc["algo"], sc["con"], "+eq" if sc.get("eq") else "", "+caps" if sc.get("caps") else "",
                                            "-" if (sc.get("obj_wt") or 1) < 0 else "+", sc["mode"], [r["mode"] for r in sc["script"]], "S" if sc["n"] <= 5 else "L",
-                                         ("=n" if sc["k"] == (len(sc["space"]) if sc.get("space") is not None else sc["n"]) else ("1" if sc["k"] == 1 else "m")) + ("|sp" if sc.get("space") is not None else "") + ("|rb" if sc.get("rebound") else "") + ("|ocs" if sc.get("ocs") is not None else ""))
+                                         ("=n" if sc["k"] == (len(sc["space"]) if sc.get("space") is not None else sc["n"]) else ("1" if sc["k"] == 1 else "m")) + ("|sp" if sc.get("space") is not None else "") + ("|rb" if sc.get("rebound") else "") + ("|ocs" if sc.get("ocs") is not None else "") + "|" + sc.get("estyle", "plain"))
     return {"violations": V, "log": log, "trace": trace, "nontrivial": ran, "faults": faults, "probes": probes,
             "sim": {"optimiser_runs": 1, "pymoo_generations": probes.get("generations_observed", 0)}}
